@@ -191,7 +191,9 @@ def rule_len(ctx, py):
 def rule_units_ops(ctx, py):
     R = "C05.UNITS-OPS"
     cnode = py.cls("units.Units")
-    meth = {x.name: x for x in cnode.body if isinstance(x, ast.FunctionDef)}
+    from .. import pynorm
+    # locals that merely name self.dim / self.sys / u.dim are written out again before the component laws are read
+    meth = {x.name: pynorm.delocalised(x) for x in cnode.body if isinstance(x, ast.FunctionDef)}
     want = {"multiply": "add", "invert": "neg", "raiseto": "scale"}
     for name, law in want.items():
         f = meth.get(name)
@@ -203,7 +205,10 @@ def rule_units_ops(ctx, py):
                   "for %s in %s" % (k, pyfe.src(loops[0].iter)), "all three components", "not all components")
         st = [s for s in loops[0].body if isinstance(s, ast.Assign) and isinstance(s.targets[0], ast.Subscript)]
         ctx.need(len(st) == 1, R, "Units.%s: component store not found" % name)
-        s = st[0]
+        from .. import pysym
+        tabs = {x.value.id for x in ast.walk(f) if isinstance(x, ast.Subscript) and isinstance(x.ctx, ast.Store) and
+                isinstance(x.value, ast.Name)}
+        s = pysym.inline_stmt(st[0], f, stop={k} | tabs)       # in-loop temporaries (d = self.dim[k]) written out
         subs = [x for x in ast.walk(s) if isinstance(x, ast.Subscript)]
         samek = all(pyfe.src(x.slice) == k for x in subs)
         v = pya._strip_int(s.value)
@@ -242,8 +247,11 @@ def rule_units_ops(ctx, py):
         k = pyfe.src(lp[0].target)
         for n in lp[0].body:
             if isinstance(n, ast.If) and any(isinstance(b, ast.Raise) for b in n.body):
-                t = pyfe.src(n.test).replace(" ", "")
-                if "self.dim[%s]*e" % k in t and "rdim[%s]" % k in t and "!=" in t:
+                from .. import pysym
+                tabs = {x.value.id for x in ast.walk(f) if isinstance(x, ast.Subscript) and isinstance(x.ctx, ast.Store) and
+                        isinstance(x.value, ast.Name)}
+                t = pysym.isrc(n.test, f, stop={k} | tabs).replace(" ", "")
+                if "self.dim[%s]*e" % k in t and ("rdim[%s]" % k in t or "int(self.dim[%s]*e)" % k in t) and "!=" in t:
                     ok = True
         outside = [n for n in ast.walk(f) if isinstance(n, ast.If) and any(isinstance(b, ast.Raise) for b in n.body)
                    and n not in lp[0].body]
@@ -253,9 +261,31 @@ def rule_units_ops(ctx, py):
               "outside the component loop): fractional exponents of some base units are silently truncated")
     # __eq__: component-wise, zero exponents ignore the base unit
     f = meth["__eq__"]
-    src = pyfe.src(f).replace(" ", "")
-    ctx.check("self.dim[k]!=v.dim[k]" in src and "self.dim[k]!=0andself.sys[k]!=v.sys[k]" in src, R, f, f._qual,
-              "__eq__ compares exponents and, for non-zero exponents, base units of the same component", "", "")
+    # per component: unequal exactly when the exponents differ, or the exponent is non-zero and the base units differ --
+    # decided by truth table over the three comparisons, whatever way the tests are split or combined
+    import itertools
+    lp = [n for n in ast.walk(f) if isinstance(n, ast.For)]
+    okeq = False
+    if len(lp) == 1:
+        k = pyfe.src(lp[0].target)
+        tests = [n.test for n in ast.walk(lp[0]) if isinstance(n, ast.If) and any(
+            isinstance(b, ast.Return) and isinstance(b.value, ast.Constant) and b.value.value is False for b in n.body)]
+        v_ = [p_ for p_ in pyfe.params(f) if p_ != "self"][0]
+        A, B, C_ = "self.dim[%s] == %s.dim[%s]" % (k, v_, k), "self.dim[%s] == 0" % k, "self.sys[%s] == %s.sys[%s]" % (k, v_, k)
+        alt = {"%s.dim[%s] == self.dim[%s]" % (v_, k, k): A, "0 == self.dim[%s]" % k: B,
+               "%s.sys[%s] == self.sys[%s]" % (v_, k, k): C_}
+        if tests:
+            comb = ast.BoolOp(op=ast.Or(), values=tests) if len(tests) > 1 else tests[0]
+            ats = set(pya.expr_atoms(comb))
+            if ats and {alt.get(a, a) for a in ats} <= {A, B, C_}:
+                okeq = True
+                for va, vb, vc in itertools.product([False, True], repeat=3):
+                    asg = {a: {A: va, B: vb, C_: vc}[alt.get(a, a)] for a in ats}
+                    if pya.bool_eval(comb, asg) != ((not va) or ((not vb) and (not vc))):
+                        okeq = False
+    ctx.check(okeq, R, f, f._qual,
+              "__eq__ compares exponents and, for non-zero exponents, base units of the same component", "", "two units are not "
+              "compared as: same exponents, and the same base unit wherever the exponent is not zero")
     ctx.floor(R, 9)
 
 
